@@ -71,6 +71,20 @@ def run(ctx):
         ga = ["glit", ["lit", da, exprs.gen_vec(rng, fam, la, zeros=False)], ["lit", da, exprs.gen_vec(rng, fam, la, zeros=False)]]
         gb = ["glit", ["lit", db, exprs.gen_vec(rng, fam, lb, zeros=False)], ["lit", db, exprs.gen_vec(rng, fam, lb, zeros=False)]]
         cases.append({"e": ["gmul", ga, gb], "fam": fam, "malformed": False})
+    # directed: mixed products element * polynomial and polynomial * element with a window symmetric about w^0 that is not a palindrome
+    for k in range(4 if quick else 30):
+        fam = rng.choice(["int", "generic"])
+        n = rng.choice([2, 3, 4])
+        v = exprs.gen_vec(rng, fam, n, zeros=False)
+        if v == v[::-1]:
+            v[0] = v[0] + 1
+        sym = ["lit", -(n - 1), v]
+        par = (n - 1) % 2
+        g = exprs.gen_glit(rng, fam, rng.randint(0, 1), 4)
+        if not g[2][2]:
+            g[2] = ["lit", g[1][1], exprs.gen_vec(rng, fam, 2, zeros=False)]
+        cases.append({"e": ["gmulp", g, sym], "fam": fam, "malformed": False})
+        cases.append({"e": ["pmulg", sym, g], "fam": fam, "malformed": False})
     if ctx.replay is not None and ctx.replay.get("site") == "history":
         cases = [ctx.replay["case"]]
     impl = run_impl([{"fn": "gexpr", "e": exprs.g_json(c["e"])} for c in cases])
@@ -133,7 +147,7 @@ def run(ctx):
 
     # ------------------------------------------------------------------ phase lists
     pl = []
-    lens = list(range(1, 61)) if not quick else list(range(1, 13)) + [16, 23, 32, 41, 60]
+    lens = list(range(1, 61))       # every length at both tiers (a blocked / recursive builder fails at isolated lengths)
     reps = 1 if quick else 6
     for n in lens:
         for _ in range(reps):
